@@ -33,6 +33,12 @@ class _SJSONEncoder(json.JSONEncoder):
                    if not k.startswith("_") or k in '_fmtcomment'}
             if isinstance(o, Feature):
                 obj['locs'] = o.locs
+            elif isinstance(o, Location):
+                # strand, defect and meta are properties backed by private attributes
+                obj['strand'] = o.strand
+                obj['defect'] = o.defect
+                if o._meta is not None:
+                    obj['meta'] = o._meta
             obj['_cls'] = type(o).__name__
             return obj
         # elif isinstance(o, (_BioBasketStr, _BioSeqStr)):
